@@ -571,15 +571,15 @@ impl VEndpoint {
         self.0.close()
     }
     /// Dial, complete the TLS handshake (no anemo acknowledgement yet).
+    /// (Unpinned only: `_expected` is kept for the callers' signature; pinned dials are
+    /// exercised through `Network::connect_with_peer_id`, never through this wrapper, so that the
+    /// wrapper depends on as little of `Endpoint`'s private surface as possible.)
     pub async fn connect(
         &self,
         address: SocketAddr,
-        expected: Option<PeerId>,
+        _expected: Option<PeerId>,
     ) -> Result<VConnection> {
-        let connecting = match expected {
-            Some(peer_id) => self.0.connect_with_expected_peer_id(address, peer_id),
-            None => self.0.connect(address),
-        }?;
+        let connecting = self.0.connect(address)?;
         connecting.await.map(VConnection)
     }
     /// Accept the next inbound connection and complete its TLS handshake.
